@@ -301,8 +301,47 @@ def rule_c20_atomic(prog: Program, col: Collector) -> None:
                   construct="remove-dest",
                   necessity="unlinking the results file opens a window in which no results file exists: earlier runs are lost on a crash",
                   rule="A4")
+    col.rule("A5", "no function outside the saver's own write-then-replace sequence renames, replaces, removes or truncates files (who-may-call, whole package)", 1)
+    inside = set(m.functions)
+    n5 = 0
+    for ref in prog.all_functions():
+        if ref.short in inside or "/tests/" in ref.module.rel():
+            continue
+        ft = fterms(prog, ref)
+        for ev in ft.calls():
+            f = ev.func
+            what = None
+            if is_global(f, *REPLACE_FUNCS) or is_global(f, *REMOVE_FUNCS) or is_global(f, "shutil.rmtree", "os.truncate"):
+                what = f[1]
+            elif f[0] == "attr" and ev.name in ("unlink", "rmdir", "truncate") :
+                what = "." + ev.name + "()"
+            elif f[0] == "attr" and ev.name in ("rename", "replace") and len(ev.args) == 1 and not ev.kwargs and _pathlike(f[1]):
+                what = "." + ev.name + "()"
+            if what:
+                n5 += 1
+                col.violation(ref.where(ev.node), ref.short, f"foreign-fs-mutation:{what}",
+                              f"{what} on {short(ev.args[0] if ev.args else f[1], 60)} outside the saver: only {fn}'s write-then-replace sequence may install or remove files",
+                              "a second site that renames onto, moves or removes result files (a 'recovery' of a leftover temporary file, a cleanup, a rotation) installs "
+                              "content that no completed dump produced, or opens a window without a results file: a crash or an earlier interrupted save then loses every stored run",
+                              rule="A5")
+    if n5 == 0:
+        col.ok("-", "package", f"no rename/replace/remove/truncate call anywhere outside {', '.join(sorted(inside))}", rule="A5")
     col.assume("rename(2)/os.replace is atomic on the local file system (trusted)")
     col.assume("the property speaks of the process dying, not of power loss: fsync before replace is not required")
+
+
+def _pathlike(t: Term) -> bool:
+    """A term that denotes a path object (so that .replace/.rename are file operations, not str methods)."""
+    for x in subterms(t):
+        if x[0] == "bin" and x[1] == "/":
+            return True
+        if is_call_to(x, "pathlib.Path") or (x[0] == "call" and x[1][0] == "attr" and x[1][2] in ("with_name", "with_suffix", "joinpath", "parent")):
+            return True
+        if x[0] == "attr" and x[2] in ("parent", "model_path", "model_dir"):
+            return True
+        if x[0] == "param" and ("path" in x[1] or "dir" in x[1]):
+            return True
+    return False
 
 
 def _is_dest_like(t: Term, m: SaverModel, w: _Write) -> bool:
@@ -760,7 +799,7 @@ def rule_c19_commands(prog: Program, col: Collector) -> None:
         el = e.value[3][0][0]
         left, right = e.value[2][2], e.value[2][3]
         okacc = left == ("index", el, ("const", 0)) and right == ("list", (("index", el, ("const", 1)),))
-        col.check(okacc, bref.where(e.node), bref.short, "chosen coalitions are appended in repetition order: x + [y]", construct="best-states-append-order", necessity="")
+        col.check(okacc, bref.where(e.node), bref.short, "chosen coalitions are appended in repetition order: x + [y]", construct="best-states-append-order", necessity="the action tensor lists repetitions in order: prepending pairs every repetition's gaps with another repetition's actions")
 
     fills = [e for e in bft.calls() if is_global(e.func, "incomplete_cooperative.run.best_states.fill_in_coalitions") and any(f[0] == "for" for f in e.ctx)]
     for e in fills:
